@@ -171,7 +171,7 @@ def real_threshold(ck):
 
 
 def main():
-    ck = yv.Check("C02", "exploration")
+    ck = yv.Check("C02", "exploration", deadlines=(240, 3300))
     quick = ck.tier == "quick"
     TOK = BYTES + ALTS
     jobs_plain, jobs_small = [], []
